@@ -5,16 +5,7 @@ handler, which trace specification.  Bounds are fitted to measured state counts
 (DESIGN.md section 10)."""
 
 
-def bfs(module, cfg, **kw):
-    d = dict(module=module, cfg=cfg, mode="bfs")
-    d.update(kw)
-    return d
-
-
-def sim(module, cfg, num, depth, **kw):
-    d = dict(module=module, cfg=cfg, mode="simulate", num=num, depth=depth)
-    d.update(kw)
-    return d
+from propdefs import bfs, sim
 
 
 DOC_TRACE = dict(module="DocTrace", cfg="DocTrace")
@@ -146,3 +137,12 @@ PROPS["C18"] = dict(
     ],
     exhaustive_tiers=("thorough",),
 )
+
+
+# ---- per-property modules lib/props_<ID>.py: each defines PROPS = {ID: cfg} and TEXT = {ID: manifest text}
+import glob as _glob, importlib as _importlib, os as _os
+EXTRA_TEXT = {}
+for _f in sorted(_glob.glob(_os.path.join(_os.path.dirname(_os.path.abspath(__file__)), "props_C*.py"))):
+    _m = _importlib.import_module(_os.path.splitext(_os.path.basename(_f))[0])
+    PROPS.update(_m.PROPS)
+    EXTRA_TEXT.update(getattr(_m, "TEXT", {}))
